@@ -1072,6 +1072,70 @@ func randomHistory(r *rand.Rand, class string, maxLen int) *history {
 	return h
 }
 
+// rewatchHistory: a sub-channel is de-registered while locked in the newest ledger transaction
+// (archived), watched again, advanced, and then some channel of the family is disputed; random events
+// before, between and after.
+func rewatchHistory(r *rand.Rand, maxLen int) *history {
+	n := 5
+	g := newG(n, 0)
+	h := &history{class: "rewatch", n: n, pre: -1, seed: r.Int63()}
+	add := func(e event) {
+		g.apply(e)
+		h.evs = append(h.evs, e)
+	}
+	filler := func(k int) {
+		var last *event
+		for i := 0; i < k; i++ {
+			e := g.randomEvent(r, false, false, last)
+			if e.K == evStop || e.K == evStartLedger || e.K == evStartSub {
+				continue // keep the scenario's channels as they are
+			}
+			add(e)
+			last = &h.evs[len(h.evs)-1]
+		}
+	}
+	subs := [][]int{{1}, {1, 2}, {2, 1}}[r.Intn(3)]
+	add(event{K: evStartLedger, Ch: 0, Tx: atx{Ver: 0, Tok: g.nextTok()}})
+	for _, c := range subs {
+		add(event{K: evStartSub, Ch: c, Parent: 0, Tx: atx{Ver: 0, Tok: g.nextTok()}})
+	}
+	add(event{K: evPublish, Ch: 0, Tx: atx{Ver: g.ver[0] + 1, Tok: g.nextTok(), Locked: subs}})
+	filler(r.Intn(4))
+	x := subs[r.Intn(len(subs))]
+	for k := r.Intn(3); k > 0; k-- {
+		add(event{K: evPublish, Ch: x, Tx: atx{Ver: g.ver[x] + 1, Tok: g.nextTok()}})
+	}
+	if r.Intn(4) == 0 { // sometimes the sub-channel is no longer locked when it is stopped: no archive
+		add(event{K: evPublish, Ch: 0, Tx: atx{Ver: g.ver[0] + 1, Tok: g.nextTok()}})
+	}
+	add(event{K: evStop, Ch: x})
+	filler(r.Intn(3))
+	if r.Intn(5) != 0 {
+		add(event{K: evStartSub, Ch: x, Parent: 0, Tx: atx{Ver: g.ver[x] + uint64(r.Intn(2)), Tok: g.nextTok()}})
+		for k := r.Intn(3); k > 0; k-- {
+			add(event{K: evPublish, Ch: x, Tx: atx{Ver: g.ver[x] + 1, Tok: g.nextTok()}})
+		}
+	}
+	if r.Intn(2) == 0 {
+		add(event{K: evPublish, Ch: 0, Tx: atx{Ver: g.ver[0] + 1, Tok: g.nextTok(), Locked: subs}})
+	}
+	// disputes: outdated versions for the ledger channel and for the sub-channels
+	for k := 1 + r.Intn(3); k > 0; k-- {
+		c := append([]int{0}, subs...)[r.Intn(1+len(subs))]
+		add(event{K: evRegistered, Ch: c, V: g.versionNear(r, c)})
+		if r.Intn(2) == 0 {
+			add(event{K: evPublish, Ch: x, Tx: atx{Ver: g.ver[x] + 1, Tok: g.nextTok()}})
+		}
+	}
+	var last *event
+	for len(h.evs) < maxLen && r.Intn(6) != 0 {
+		e := g.randomEvent(r, false, false, last)
+		add(e)
+		last = &h.evs[len(h.evs)-1]
+	}
+	return h
+}
+
 // letters of the exhaustive alphabet: 1 ledger channel (0), 2 sub-channels (1, 2), versions 0..3.
 // A letter is resolved to a concrete event in the context of the generator state (next version).
 type letter struct {
@@ -1091,8 +1155,12 @@ func regLetter(ch int, v uint64) letter {
 
 func fixed(e event) letter {
 	return letter{e.term(), func(g *gstate) event {
+		e := e
 		if e.K == evStartSub || e.K == evStartLedger {
 			e.Tx.Tok = g.nextTok()
+			if !g.watched[e.Ch] && g.ver[e.Ch] > 0 {
+				e.Tx.Ver = g.ver[e.Ch] + 1 // watched again: the channel has moved on
+			}
 		}
 		return e
 	}}
@@ -1135,6 +1203,16 @@ var prefixes = [][]event{
 		{K: evPublish, Ch: 0, Tx: atx{Ver: 1, Tok: 4, Locked: []int{1, 2}}},
 		{K: evPublish, Ch: 1, Tx: atx{Ver: 1, Tok: 5}},
 		{K: evPublish, Ch: 2, Tx: atx{Ver: 2, Tok: 6}},
+	},
+	{ // sub-channel 1 de-registered while locked (archived), then watched again with a newer transaction
+		{K: evStartLedger, Ch: 0, Tx: atx{Ver: 0, Tok: 1}},
+		{K: evStartSub, Ch: 1, Parent: 0, Tx: atx{Ver: 0, Tok: 2}},
+		{K: evStartSub, Ch: 2, Parent: 0, Tx: atx{Ver: 0, Tok: 3}},
+		{K: evPublish, Ch: 0, Tx: atx{Ver: 1, Tok: 4, Locked: []int{1, 2}}},
+		{K: evPublish, Ch: 1, Tx: atx{Ver: 1, Tok: 5}},
+		{K: evPublish, Ch: 2, Tx: atx{Ver: 2, Tok: 6}},
+		{K: evStop, Ch: 1},
+		{K: evStartSub, Ch: 1, Parent: 0, Tx: atx{Ver: 2, Tok: 7}},
 	},
 }
 
@@ -1260,6 +1338,8 @@ var prefixTerms = []string{
 	"[(SL 0 false (T 0 1 []),[Os SOK]); (SS 1 0 false (T 0 2 []),[Os SOK]); (SS 2 0 false (T 0 3 []),[Os SOK])]",
 	"[(SL 0 false (T 0 1 []),[Os SOK]); (SS 1 0 false (T 0 2 []),[Os SOK]); (SS 2 0 false (T 0 3 []),[Os SOK]); " +
 		"(Pb 0 (T 1 4 [1; 2]),[]); (Pb 1 (T 1 5 []),[]); (Pb 2 (T 2 6 []),[])]",
+	"[(SL 0 false (T 0 1 []),[Os SOK]); (SS 1 0 false (T 0 2 []),[Os SOK]); (SS 2 0 false (T 0 3 []),[Os SOK]); " +
+		"(Pb 0 (T 1 4 [1; 2]),[]); (Pb 1 (T 1 5 []),[]); (Pb 2 (T 2 6 []),[]); (St 1,[Ot TOK]); (SS 1 0 false (T 2 7 []),[Os SOK])]",
 }
 
 func (h *history) stepTerms(from, to int) string {
@@ -1569,8 +1649,8 @@ func Run(seed int64, tier, out string) {
 	gen := rand.New(rand.NewSource(hx.Rng.Int63()))
 	res := hx.NewResult("C05", seed, tier)
 	res.Rule = "histories of publish / registered / progressed / concluded / start / stop / register-fails events against the real local.Watcher: " +
-		"exhaustive words (quick: length 2 over 20 letters; thorough: length 3 over 20, length 4 over 10, length 5 over 6 letters; 1 ledger channel, 2 sub-channels, versions 0..3) after two set-up prefixes, random histories up to length 60 " +
-		"(5 channel ids, two families, re-watching, duplicate and foreign locked ids; classes: plain, bigver = versions offset by 2^40, nonmono = versions not increasing (correspondence only), multi = multi-ledger assets (correspondence only)). " +
+		"exhaustive words (quick: length 2 over 20 letters; thorough: length 3 over 20, length 4 over 10, length 5 over 6 letters; 1 ledger channel, 2 sub-channels, versions 0..3) after three set-up prefixes, random histories up to length 60 " +
+		"(5 channel ids, two families, re-watching, duplicate and foreign locked ids; classes: plain, bigver = versions offset by 2^40, nonmono = versions not increasing (correspondence only), multi = multi-ledger assets (oracle: arguments and relays only), rewatch = sub-channel archived, watched again, advanced, then disputes). " +
 		"plus concurrent runs (three reporters at once) with a schedule-independent oracle (tree registered exactly once, newest states, relays increasing). " +
 		"distinct = distinct (class, event sequence shape, observed outputs); trivial = histories without any Register call, relay or refusal"
 	var hs []*history
@@ -1584,13 +1664,19 @@ func Run(seed int64, tier, out string) {
 		for i := 0; i < 3000; i++ {
 			hs = append(hs, randomHistory(gen, classes[i%5], 60))
 		}
+		for i := 0; i < 2000; i++ {
+			hs = append(hs, rewatchHistory(gen, 40))
+		}
 		res.Exhaustive = true
 	} else {
 		for pi := range prefixes {
 			hs = append(hs, exhaustive(gen, fmt.Sprintf("exh2-p%d", pi), pi, alphabetWide, 2)...)
 		}
-		for i := 0; i < 120; i++ {
+		for i := 0; i < 100; i++ {
 			hs = append(hs, randomHistory(gen, classes[i%5], 60))
+		}
+		for i := 0; i < 80; i++ {
+			hs = append(hs, rewatchHistory(gen, 30))
 		}
 	}
 	res.PerFile = 0
@@ -1650,7 +1736,7 @@ func Run(seed int64, tier, out string) {
 			if len(res.Samples) < 6 && len(h.evs) <= 12 && !strings.HasPrefix(oc, "register=0") {
 				res.Sample(h.replay())
 			}
-			oracleApplies := h.class != "nonmono" && h.class != "multi"
+			oracleApplies := h.class != "nonmono"
 			if oracleApplies {
 				for k, c := range h.bad {
 					res.Fail(hx.Failure{Site: c.site, InputClass: c.class, Case: gi,
